@@ -19,4 +19,9 @@ V1 = FunctionSpace(mesh, basix.ufl.element("Lagrange", cell, 1))
 p1, q1 = Coefficient(V1), TrialFunction(V1)
 zt = [(as_tensor([[p1, p1.dx(0).dx(0)], [p1.dx(1), 2 * p1.dx(0)]]), pts),
       (as_tensor([[q1.dx(1), q1, q1.dx(0).dx(1)], [q1.dx(0), q1.dx(1).dx(1), 3 * q1]]), pts)]
-expressions = zt + [(f * k, pts), (grad(f), pts), (outer(g, grad(f)), pts), (grad(u), pts), (outer(uv, g), pts), (grad(f), fpts), (u * g, fpts)]
+# a coefficient that preprocessing drops (its derivative vanishes) and that has a LOWER count than one that remains: the
+# remaining coefficients are packed densely, in original order
+D0 = FunctionSpace(mesh, basix.ufl.element("DG", cell, 0))
+k0, g2, h2 = Coefficient(D0), Coefficient(V), Coefficient(V)
+dropped = [(h2 * (g2 + k0).dx(0), pts), (h2 * grad(k0 * k0 + g2)[1] + f, pts)]
+expressions = zt + dropped + [(f * k, pts), (grad(f), pts), (outer(g, grad(f)), pts), (grad(u), pts), (outer(uv, g), pts), (grad(f), fpts), (u * g, fpts)]
